@@ -12,6 +12,7 @@ CONSTANTS
   CfiLayouts = {"none"}
   Isa = "x64"
   WithScopes = FALSE
+  WholeOnly = FALSE
   Leads = {0}
   DropFnTables = {FALSE}
   ExtraData = {FALSE}
